@@ -456,8 +456,8 @@ def _operators_and_dunders(cx, op, d, g):
     cx.call("binop:op+T", "T", lambda: op + T, None, lambda: d + T)
     cx.call("binop:T-op", "T", lambda: T - op, None, lambda: T - d)
     cx.call("binop:op-T", "T", lambda: op - T, None, lambda: d - T)
-    cx.call("binop:T*op", "T", lambda: T * op, None, lambda: T * d)
-    cx.call("binop:op*T", "T", lambda: op * T, None, lambda: d * T)
+    cx.call("binop:T.mul.op", "T", lambda: T * op, None, lambda: T * d)
+    cx.call("binop:op.mul.T", "T", lambda: op * T, None, lambda: d * T)
     cx.call("binop:T@op", "T", lambda: L @ op, None, lambda: L @ d, scale=m)
     cx.call("binop:T@op", "vec", lambda: v @ op, None, lambda: v @ d, scale=m)
     cx.call("binop:op@T", "T", lambda: op @ R, None, lambda: d @ R, scale=n)
@@ -466,8 +466,8 @@ def _operators_and_dunders(cx, op, d, g):
     # T / op is not registered: explicit NotImplementedError (or TypeError from python), never a silent densification
     cx.call("binop:T/op", "unregistered", lambda: T / op, must_raise=(NotImplementedError, TypeError))
     for sk, c in (("py_float", 2.5), ("py_negint", -3), ("t0", torch.tensor(0.5, dtype=dt))):
-        cx.call("binop:c*op", sk, lambda: c * op, None, lambda: c * d)
-        cx.call("binop:op*c", sk, lambda: op * c, None, lambda: d * c)
+        cx.call("binop:c.mul.op", sk, lambda: c * op, None, lambda: c * d)
+        cx.call("binop:op.mul.c", sk, lambda: op * c, None, lambda: d * c)
         cx.call("binop:op/c", sk, lambda: op / c, None, lambda: d / c)
     for sk, c in (("py_zero", 0), ("py_float", 2.5)):
         # python scalar as the other operand of +/-: the dense value when something is returned; any refusal is accepted
